@@ -2,6 +2,7 @@ package props
 
 import (
 	"go/ast"
+	"go/constant"
 	"go/token"
 	"go/types"
 	"sort"
@@ -1279,7 +1280,98 @@ func ruleFuncTableSlots(c *core.Ctx, rule string) {
 						// that hold on every path from that definition to the read are used (a
 						// clamp "if i >= len(t) { i = 0 }" leaves the original value only on the
 						// edge where it is in range)
+						// a closed domain of the index, when it has one: the declared constants of
+						// its (repository-defined) enumeration type, or 0..K-1 after "x %= K" of a
+						// sum of non-negative terms
+						var domain []int64
+						hasDomain := false
+						if named, isNamed := info.TypeOf(ix.Index).(*types.Named); isNamed && named.Obj().Pkg() != nil && strings.HasPrefix(named.Obj().Pkg().Path(), core.ModulePath) {
+							scope := named.Obj().Pkg().Scope()
+							for _, nm := range scope.Names() {
+								if cst, ok := scope.Lookup(nm).(*types.Const); ok && types.Identical(cst.Type(), named) {
+									if kv, exact := constant.Int64Val(constant.ToInt(cst.Val())); exact {
+										domain = append(domain, kv)
+										hasDomain = true
+									}
+								}
+							}
+						}
+						if id, isID := ast.Unparen(ix.Index).(*ast.Ident); isID && !hasDomain {
+							if obj := info.ObjectOf(id); obj != nil {
+								mod := int64(0)
+								nonNeg := true
+								for _, d := range defVertices(g, obj) {
+									switch x := d.AST.(type) {
+									case *ast.AssignStmt:
+										for i, l := range x.Lhs {
+											if core.ObjOf(info, l) != obj {
+												continue
+											}
+											switch x.Tok {
+											case token.REM_ASSIGN:
+												if kv, ok := core.IntConst(info, x.Rhs[0]); ok && kv > 0 {
+													mod = kv
+												}
+											case token.ADD_ASSIGN:
+												// += int(<unsigned>)
+												r := ast.Unparen(x.Rhs[0])
+												if cv, ok := r.(*ast.CallExpr); ok && len(cv.Args) == 1 {
+													r = ast.Unparen(cv.Args[0])
+												}
+												if b, ok := info.TypeOf(r).Underlying().(*types.Basic); !ok || b.Info()&types.IsUnsigned == 0 {
+													nonNeg = false
+												}
+											case token.ASSIGN, token.DEFINE:
+												if i < len(x.Rhs) {
+													if kv, ok := core.IntConst(info, x.Rhs[i]); !ok || kv < 0 {
+														nonNeg = false
+													}
+												}
+											default:
+												nonNeg = false
+											}
+										}
+									case *ast.ValueSpec:
+										if len(x.Values) != 0 {
+											nonNeg = false
+										}
+									default:
+										nonNeg = false
+									}
+								}
+								// the read must come after the reduction
+								if mod > 0 && nonNeg {
+									reduced := false
+									for _, d := range defVertices(g, obj) {
+										if as, ok := d.AST.(*ast.AssignStmt); ok && as.Tok == token.REM_ASSIGN && g.Dominates(d, v) {
+											// no further growth between the reduction and the read
+											grows := false
+											for _, d2 := range defVertices(g, obj) {
+												if d2 != d && g.PathExists(d, d2, nil) && g.PathExists(d2, v, core.AvoidVs(d)) {
+													grows = true
+												}
+											}
+											reduced = !grows
+										}
+									}
+									if reduced {
+										for kv := int64(0); kv < mod; kv++ {
+											domain = append(domain, kv)
+										}
+										hasDomain = true
+									}
+								}
+							}
+						}
 						possible := func(k int64) (bool, bool, string) {
+							if hasDomain {
+								for _, dv := range domain {
+									if dv == k {
+										return true, true, "a value of the index's closed domain"
+									}
+								}
+								return false, true, ""
+							}
 							lit := &ast.BasicLit{Kind: token.INT, Value: itoa(int(k))}
 							type pathCase struct {
 								atoms []core.Atom
